@@ -737,9 +737,10 @@ class Emitter:
             # C++ unions: LLVM types them by one member (often a pointer-carrying struct) and reaches the others through
             # bitcasts.  cbmc 6.11's simplifier mis-evaluates integer constants that travel through pointer-typed storage
             # (sign tests fold to true), so union storage is emitted as an untyped word blob and every access is a cast.
+            # a BYTE array: cbmc folds byte_extract over byte-array storage back to the stored constants, whereas two u32 halves written
+            # into a never fully assigned u64 word stay symbolic (index_/capacity_ of a moved container became symbolic and exploded)
             al = s.alignof(t); sz = s.sizeof(t)
-            el = {1: 'u8', 2: 'u16', 4: 'u32'}.get(al, 'u64'); w = {1: 1, 2: 2, 4: 4}.get(al, 8)
-            s.typedefs.append(('def', cn, '%s { %s w[%d]; };' % (cn, el, max(sz // w, 1))))
+            s.typedefs.append(('def', cn, '%s { u8 w[%d]; } __attribute__((aligned(%d)));' % (cn, max(sz, 1), al)))
             return
         if isinstance(t, (TArr, TVec)):
             # make sure element type is complete first
